@@ -19,6 +19,7 @@ import json
 import os
 
 import env
+import enc_md
 import enc_tools
 import pipeline
 import resp as R
@@ -66,7 +67,31 @@ FLAGS = ["sign_response", "sign_assertion", "encrypt_assertion", "encrypted_advi
 
 
 def layout_entity(name):
-    return "https://sp-%s.example.org/sp" % name
+    return enc_md.entity_id(name, "sp")
+
+
+# hand-written / third-party metadata (harness/enc_md.py): key descriptors without `use`, several roles / X509Data /
+# entities / sources; the random ones of this run are registered by unit_idp (or by replay)
+MD_LAYOUTS = dict(enc_md.LAYOUTS)
+
+
+def layout_struct(name):
+    """every layout as sources -> entities -> role descriptors -> key descriptors (what pysaml2's own generator
+    writes for LAYOUTS: the signing certificate, then one use=encryption descriptor per encryption key pair)"""
+    if name in LAYOUTS:
+        return [[("sp", [("spsso", [("signing", ["sp"])] + [("encryption", [c]) for c in LAYOUTS[name]])])]]
+    return MD_LAYOUTS[name]
+
+
+def layout_certs(name):
+    """the certificates the SP's metadata offers for encryption, in the property's words (None = garbage text)"""
+    return enc_md.enc_certs(layout_struct(name))
+
+
+def layout_tag(name):
+    if name.startswith("rnd"):
+        return "random[%s]" % ",".join(c or "garbage" for c in layout_certs(name))
+    return name
 
 
 def _layout_md(name):
@@ -91,6 +116,15 @@ def _layout_md(name):
     return md
 
 
+def all_sources():
+    """the IdP's metadata configuration: one inline source per generated layout, then the sources of every
+    hand-written layout in their order (entity ids are distinct between layouts)"""
+    mds = [_layout_md(n) for n in LAYOUTS]
+    for n in MD_LAYOUTS:
+        mds += enc_md.render(n, MD_LAYOUTS[n])
+    return mds
+
+
 _idps = {}
 
 
@@ -101,7 +135,7 @@ def the_idp(config_defaults=False):
     """False: plain IdP; True: encrypt_assertion / sign_assertion set in its configuration;
     'verify': verify_encrypt_cert_assertion / _advice callables configured"""
     if config_defaults not in _idps:
-        mds = [_layout_md(n) for n in LAYOUTS]
+        mds = all_sources()
         over = {}
         if config_defaults is True:
             over = {"idp": {"encrypt_assertion": True, "sign_assertion": True}}
@@ -110,7 +144,10 @@ def the_idp(config_defaults=False):
         elif config_defaults == "verify":
             want_a, want_b = env.cert_b64(VERIFY_ASSERTION), env.cert_b64(VERIFY_ADVICE)
             over = {"idp": {"verify_encrypt_cert_assertion": lambda c: c == want_a, "verify_encrypt_cert_advice": lambda c: c == want_b}}
-        _idps[config_defaults] = env.make_idp(sp_md=mds, **over)
+        import contextlib
+        import io
+        with contextlib.redirect_stdout(io.StringIO()), contextlib.redirect_stderr(io.StringIO()):      # (mdstore prints "Duplicated Entity descriptor")
+            _idps[config_defaults] = env.make_idp(sp_md=mds, **over)
     return _idps[config_defaults]
 
 
@@ -133,7 +170,7 @@ def coq_cert_arg(c):
 
 
 def coq_md(layout):
-    return clist(LAYOUTS[layout], lambda c: "(0, false)" if c is None else "(%d, true)" % KEYID[c])
+    return enc_md.coq_store(layout, layout_struct(layout), KEYID)
 
 
 PUB = ('{| p_rid := s2l "r"; p_aid := s2l "a"; p_advid := s2l "b"; p_issuer := s2l "i"; p_dest := s2l "d"; p_irt := s2l "q"; '
@@ -148,14 +185,13 @@ def coq_ident(ident):
 def coq_idp_case(c):
     f = c["flags"]
     g = ("{| g_sign_response := %s; g_sign_assertion := %s; g_encrypt_assertion := %s; g_enc_advice := %s; g_pefim := %s; "
-         "g_self_contained := %s; g_cert_assertion := %s; g_cert_advice := %s; g_md_certs := %s; g_verify_assertion := %s; g_verify_advice := %s; "
+         "g_self_contained := %s; g_cert_assertion := %s; g_cert_advice := %s; g_md_certs := []; g_verify_assertion := %s; g_verify_advice := %s; "
          "g_idp_key := %d; g_pub := %s |}"
          % (cbool(f["sign_response"]), cbool(f["sign_assertion"]), cbool(f["encrypt_assertion"]), cbool(f["encrypted_advice_attributes"]),
             cbool(f["pefim"]), cbool(f["self_contained"]), coq_cert_arg(c["cert_assertion"]), coq_cert_arg(c["cert_advice"]),
-            coq_md(c["layout"]),
             "(Some %d%%N)" % KEYID[VERIFY_ASSERTION] if c.get("config_defaults") == "verify" else "None",
             "(Some %d%%N)" % KEYID[VERIFY_ADVICE] if c.get("config_defaults") == "verify" else "None", KEYID["idp"], PUB))
-    return "(%s, %s)" % (g, coq_ident(c["ident"]))
+    return "(%s, %s, %s, %s)" % (g, coq_md(c["layout"]), cstr(layout_entity(c["layout"])), coq_ident(c["ident"]))
 
 
 SPECIALS = ["<&>", "\"q'", "é ü", "%41+", "a b", "="]
@@ -208,7 +244,7 @@ def expectation(c):
     """(protected categories, key that must open the main ciphertext, key for the advice ciphertext) or None when the
     property's hypothesis (encryption requested and the SP has a usable certificate for it) does not hold"""
     f = c["flags"]
-    md = LAYOUTS[c["layout"]]
+    md = layout_certs(c["layout"])
 
     def usable(arg):
         """first usable key name for a cert argument, 'raise' if certificates exist but none works, None if there is none"""
@@ -244,6 +280,24 @@ def unit_idp(ctx):
         k = 5 if ctx.quick else len(others)
         for layout, a, b in (rng.sample(others, k) if k < len(others) else others):
             plan.append((flags, layout, a, b, False))
+    # hand-written / third-party metadata: every listed layout and the random federations of this run
+    for j in range(int(os.environ.get("C17_RANDOM_MD") or (6 if ctx.quick else 60))):
+        MD_LAYOUTS["rnd%d" % j] = enc_md.random_layout(rng)
+    core16 = [dict(sign_response=a, sign_assertion=b, encrypt_assertion=c_, encrypted_advice_attributes=False, pefim=d, self_contained=True)
+              for a, b, c_, d in itertools.product([False, True], repeat=4)]
+    rest48 = [dict(zip(FLAGS, fl)) for fl in combos if not (dict(zip(FLAGS, fl)) in core16)]
+    for layout in MD_LAYOUTS:
+        for flags in (core16 + rng.sample(rest48, 4) if ctx.quick else core16 + rest48):
+            plan.append((flags, layout, None, None, False))
+        for _ in range(2 if ctx.quick else 40):
+            flags = dict(rng.choice(core16), encrypt_assertion=True) if rng.random() < 0.5 else dict(rng.choice(core16), pefim=True)
+            a, b = rng.choice([(x, y) for x in CERT_ARGS for y in CERT_ARGS if (x, y) != (None, None)])
+            plan.append((flags, layout, a, b, False))
+    for layout in ("useless", "sign+useless", "otherrole-useless", "signonly", "garb-garb-sp", "src-sign-then-enc"):
+        # the same through the flags of the IdP configuration
+        for fl in itertools.product([False, True], repeat=2):
+            plan.append((dict(sign_response=fl[0], sign_assertion=True, encrypt_assertion=True, encrypted_advice_attributes=False, pefim=fl[1],
+                              self_contained=True), layout, None, None, True))
     for fl in itertools.product([False, True], repeat=3):
         # encrypt_assertion / sign_assertion left to the IdP configuration (both on there)
         flags = dict(sign_response=fl[0], sign_assertion=True, encrypt_assertion=True, encrypted_advice_attributes=fl[1], pefim=fl[2],
@@ -280,7 +334,13 @@ def judge_idp(ctx, results, fixed=True):
         exp = expectation(c)
         sec = secrets_of(c["ident"])
         fkey = "flags=%s" % ("+".join(k for k in FLAGS if c["flags"][k]) or "-")
-        key = "%s:md=%s:ca=%s:cadv=%s" % (fkey, c["layout"], c["cert_assertion"], c["cert_advice"])
+        mdtag = layout_tag(c["layout"])
+        if c["layout"] in MD_LAYOUTS:
+            show["metadata"] = enc_md.describe(MD_LAYOUTS[c["layout"]])
+            if c["layout"].startswith("rnd"):
+                show["md_layout"] = MD_LAYOUTS[c["layout"]]          # enough to rebuild the federation in a replay
+            show["sp_encryption_certificates"] = [x or "garbage" for x in layout_certs(c["layout"])]
+        key = "%s:md=%s:ca=%s:cadv=%s" % (fkey, mdtag, c["cert_assertion"], c["cert_advice"])
         if isinstance(got, Exn):
             impl = Exn("raised")
             ctx.count("idp:raised:" + got.name)
@@ -302,8 +362,17 @@ def judge_idp(ctx, results, fixed=True):
             for cat in protected:
                 for s in sec[cat]:
                     if enc_tools.readable_in(got, s):
-                        ctx.oracle_fail("leak:%s:%s" % (cat, fkey), "%s %r of the assertion to be encrypted is readable in the emitted response" % (cat, s), show)
+                        ctx.oracle_fail("leak:%s:%s:md=%s" % (cat, fkey, mdtag), "%s %r of the assertion to be encrypted is readable in the emitted response "
+                                        "(the SP's metadata offers %s for encryption)" % (cat, s, [x or "garbage" for x in layout_certs(c["layout"])]), show)
                         break
+            # no certificate for encryption anywhere (signing-only metadata, nothing handed in): the documented observation is
+            # that encryption is silently not done - but then nothing in the message may claim to be encrypted
+            if not layout_certs(c["layout"]) and c["cert_assertion"] is None and c["cert_advice"] is None:
+                ctx.count("idp:no-certificate:clear")
+                if enc_tools.claims_encrypted(got):
+                    ctx.oracle_fail("claims-encrypted-without-certificate:%s:md=%s" % (fkey, mdtag),
+                                    "the SP's metadata has no key descriptor for encryption and no certificate was handed in, yet the response carries "
+                                    "an EncryptedAssertion / EncryptedData element", show)
             # which key opens what: main ciphertext / advice ciphertext
             encs = _enc_nodes(shp)
             want = []
@@ -313,13 +382,14 @@ def judge_idp(ctx, results, fixed=True):
                 want.append(("main", KEYID[exp["main"]]))
             for where, kid in want:
                 if (where, kid) not in encs:
-                    ctx.oracle_fail("opens-under:%s:%s" % (where, fkey), "the %s ciphertext does not open under the SP's key %d only (found %s)" % (where, kid, encs), show)
+                    ctx.oracle_fail("opens-under:%s:%s:md=%s" % (where, fkey, mdtag), "the %s ciphertext does not open under the SP's key %d only (found %s)" % (where, kid, encs), show)
             ctx.nontriv((key, bool(protected)))
         cases.append(dict(id=c["id"], coq=coq_idp_case(c), impl=impl, show=show))
         if c["id"] % 400 == 1:
             ctx.sample(dict(case=show, emitted_structure=impl if not isinstance(impl, Exn) else "raised"))
-    ctx.correspond("idp_build", "Model.Status Model.Response Model.Encrypt",
-                   "fun gi : idp_args * ident => show_build (%s (fst gi) (snd gi))" % ("idp_build" if fixed else "idp_build_before_fix"), "(idp_args * ident)", cases)
+    ctx.correspond("idp_build", "Model.Status Model.Response Model.Encrypt Model.CertSelect Model.EncryptMd",
+                   "fun x : idp_args * mdstore * str * ident => match x with (g, m, sp, i) => show_build (%s g m sp i) end"
+                   % ("idp_build_md" if fixed else "idp_build_md_before_fix"), "(idp_args * mdstore * str * ident)", cases)
 
 
 def _enc_nodes(shp):
@@ -822,7 +892,7 @@ def unit_e2e(ctx, results):
     import base64
     todo = [(c, got) for c, got, err in results if isinstance(got, str) and (c["cert_assertion"], c["cert_advice"]) == (None, None)]
     if ctx.quick:
-        todo = [x for j, x in enumerate(todo) if j % 2 == 0 or x[0]["flags"]["pefim"]]
+        todo = [x for j, x in enumerate(todo) if (j % 2 == 0 or x[0]["flags"]["pefim"]) if x[0]["layout"] in LAYOUTS or j % 4 == 0]
     with env.Clock(NOW):
         for c, xml in todo:
             exp = expectation(c)
@@ -843,7 +913,7 @@ def unit_e2e(ctx, results):
             for vname, keys, wrs, was in variants:
                 sp = layout_sp(c["layout"], keys, wrs, was)
                 show = dict(flags={k: v for k, v in f.items() if v}, layout=c["layout"], sp_keys=keys, variant=vname)
-                key = "e2e:%s:flags=%s" % (vname, "+".join(k for k in FLAGS if f[k]) or "-")
+                key = "e2e:%s:flags=%s:md=%s" % (vname, "+".join(k for k in FLAGS if f[k]) or "-", layout_tag(c["layout"]))
                 try:
                     r = sp.parse_authn_request_response(wire, env.BINDING_HTTP_POST, {"req-1": "/home"})
                     got = dict(name_id=r.name_id.text if r.name_id is not None else None, ava=r.ava or {})
@@ -924,6 +994,12 @@ def replay(ctx, payload):
                 print("tree:", [enc_tree.describe(k) for k in kids])
                 print("implementation outcome:", got, info)
             elif "layout" in inp and "variant" not in inp:
+                if "md_layout" in inp:
+                    MD_LAYOUTS[inp["layout"]] = [[(who, [(t, [(u, list(cs)) for u, cs in kds]) for t, kds in roles]) for who, roles in src] for src in inp["md_layout"]]
+                    _idps.clear()
+                if inp["layout"] in MD_LAYOUTS:
+                    print("metadata of the SP as the IdP is given it:", enc_md.describe(MD_LAYOUTS[inp["layout"]]))
+                    print("certificates it offers for encryption:", layout_certs(inp["layout"]))
                 fl = {k: bool(inp["flags"].get(k)) for k in FLAGS}
                 c = dict(flags=fl, layout=inp["layout"], cert_assertion=inp.get("cert_assertion"), cert_advice=inp.get("cert_advice"),
                          ident=gen_ident(ctx.rng, 0), config_defaults=inp.get("config_defaults", False))
